@@ -499,17 +499,22 @@ void Explorer<FSM>::checkC06(const Node&, Exec& x) {
 			if (E::named(h) && !got(M_PLAN_SUCCEEDED)) { violation("C06", "liveness/plan-succeeded-not-delivered" + wit, "sub-state S" + str(directSucc[0]) + " of region S" + str(h) + " succeeded and the attached plan is empty, the head did not receive planSucceeded", x); return; }
 			continue;
 		}
-		std::set<int> doneOrigins;
+		// every task of the in-order prefix (origins active) whose origin succeeded is executed in this step; once a cyclic task
+		// (origin == destination) of an origin ran, its success is consumed and later tasks of that origin are not claimed
+		std::set<int> cyclicSeen;
+		std::map<std::pair<int, int>, int> need;
 		for (const Snap::TaskInfo& t : plan0) {
 			if (!x.before.active[t.origin]) break;
 			bool succ = false;
 			for (const Mark& m : marks) if (m.state == t.origin && m.succ) succ = true;
-			if (!succ || doneOrigins.count(t.origin)) continue;
-			doneOrigins.insert(t.origin);
-			bool ran = false;
-			for (const Snap::TaskInfo& u : executed[R]) if (u.origin == t.origin && u.dest == t.dest) ran = true;
-			if (!ran) {
-				violation("C06", "liveness/task-not-executed" + wit, "origin S" + str(t.origin) + " succeeded, the head S" + str(h) + " stayed silent and no transition left the region, yet task S" + str(t.origin) + "->S" + str(t.dest) + " was not executed", x);
+			if (!succ || cyclicSeen.count(t.origin)) continue;
+			if (t.origin == t.dest) cyclicSeen.insert(t.origin);
+			const int needed = ++need[std::make_pair(t.origin, t.dest)];
+			if (needed > 1) ++counters["c06_further_task_of_same_origin_claimed"];
+			int ran = 0;
+			for (const Snap::TaskInfo& u : executed[R]) if (u.origin == t.origin && u.dest == t.dest) ++ran;
+			if (ran < needed) {
+				violation("C06", "liveness/task-not-executed" + wit, "origin S" + str(t.origin) + " succeeded, the head S" + str(h) + " stayed silent and no transition left the region, yet task S" + str(t.origin) + "->S" + str(t.dest) + (needed > 1 ? " (occurrence " + str(needed) + " in the plan)" : "") + " was not executed", x);
 				return;
 			}
 		}
